@@ -2056,7 +2056,8 @@ class C10(Check):
         'UID values, \\Recent, response syntax and message bytes are owned by '
         'C04, C17, C07, C03 and only used here to identify messages',
         'latitudes 1-8 of the module docstring (counted as lat_*)',
-        'dict and maildir(++) backends; redis cannot run here']
+        'dict and maildir(++) backends, maildir also with --colon; redis '
+        'cannot run here']
     floors = {'steps_compared': 19000, 'dumps_compared': 22000,
               'flag_comparisons': 70000, 'views_compared': 13000,
               'cmd_store': 1900, 'cmd_uid_store': 1600, 'cmd_fetch': 1100,
@@ -2087,6 +2088,9 @@ class C10(Check):
                 'nsteps': rng.randint(5, 25)}
             if r >= 0.8:
                 spec['kwfile'] = True
+            elif r >= 0.72:
+                # a deployment with --colon (file systems without ':')
+                spec['backend'] = 'maildir-colon'
             if rng.random() < 0.25:
                 spec['tz'] = rng.choice(TZS)
             yield spec
